@@ -31,6 +31,7 @@ def r17_1(ctx):
                 if isinstance(x, ast.Assign) and isinstance(x.value, ast.Call) and call_name(x.value) in ("get_lexer_by_name", "get_lexer_for_filename", "guess_lexer_for_filename", "guess_lexer") and isinstance(x.targets[0], ast.Name):
                     var = x.targets[0].id
                     uses_tokens = any(isinstance(c, ast.Call) and isinstance(c.func, ast.Attribute) and c.func.attr in ("get_tokens", "get_tokens_unprocessed") and norm(c.func.value) == var for c in ast.walk(f.node))
+                    uses_tokens = uses_tokens or any(isinstance(r_, ast.Return) and r_.value is not None and norm(r_.value) == var for r_ in walk_local(f.node))
                     if not uses_tokens:
                         continue
                     n += 1
@@ -40,6 +41,19 @@ def r17_1(ctx):
                     ok = ok and not (sa is not None and isinstance(sa, ast.Constant) and sa.value is True)
                     ctx.check(ok, f.fq, short(x), f"{m.relpath}:{x.lineno}", "lexer created with stripnl=False",
                               f"`{short(x.value)}` uses Pygments' default stripnl=True: leading blank lines of the source are dropped before tokenising, so every displayed line number (and the line a traceback frame points at) is shifted")
+    # a lexer handed out by a helper (`return get_lexer_by_name(..)` / `return guess_lexer(code)`) is used by its caller for tokens
+    for ms in ("syntax", "traceback", "markdown"):
+        m = ctx.repo.mod(ms)
+        for f in m.functions.values():
+            if m.in_main_guard(f.node):
+                continue
+            for r_ in walk_local(f.node):
+                if isinstance(r_, ast.Return) and isinstance(r_.value, ast.Call) and call_name(r_.value) in ("get_lexer_by_name", "get_lexer_for_filename", "guess_lexer_for_filename", "guess_lexer"):
+                    n += 1
+                    kw = kwarg(r_.value, "stripnl")
+                    ok = kw is not None and isinstance(kw, ast.Constant) and kw.value is False
+                    ctx.check(ok, f.fq, short(r_), f"{m.relpath}:{r_.lineno}", "returned lexer created with stripnl=False",
+                              f"`{short(r_.value)}` hands out a lexer with Pygments' default stripnl=True: leading blank lines of the source are dropped before tokenising, so every displayed line number is shifted")
     ctx.floor(n, 1, "lexers whose tokens are displayed")
 
 
